@@ -98,5 +98,60 @@ class DeletionKeepMask(FragmentContract):
         return []
 
 
+
+
+class SubstitutionEffect(Contract):
+    """C10 (substitutions, whole function): whenever substitution_effect returns, y_before = func on the
+    unmodified X and y_after = func on X with, for every row (e, p, c) of the table, column p of example e
+    replaced by the one-hot column of character c; positions not named by the table are untouched; X is
+    not written.  (Which conflicting tables are rejected is the bounded layer's clause.)"""
+    qualname = 'tangermeme.variant_effect.substitution_effect'
+    props = ('C10',)
+
+    def configs(self):
+        return [dict(out=o) for o in ('tensor', 'tuple2')]
+
+    def scopes(self, cfg):
+        return [{'default': 2}, {'default': 2, 'R': 3, 'X.d2': 3}, {'default': 3, 'R': 1}]
+
+    def make_args(self, cfg, A):
+        func = make_func('F', cfg['out'], A)
+        model = Opaque('model', 'model', {'types': ['model']})
+        X = A.tensor('X', 3, 'int', min_dims=1)
+        R = A.dim('R', 0)
+        S = A.tensor('substitutions', 2, 'int', shape=[R, 3])
+        # the table names examples, positions and characters of X (what the statement quantifies over)
+        A.assume(O.forall_hyp([R], lambda r: And(0 <= S[r, 0], S[r, 0] < X.shape[0], 0 <= S[r, 1], S[r, 1] < X.shape[2],
+                                                 0 <= S[r, 2], S[r, 2] < X.shape[1])))
+        return [model, X, S], dict(func=func)
+
+    @staticmethod
+    def edited(X, S):
+        R = S.shape[0]
+
+        def elem(e, c, p):
+            named = O.exists_box([R], lambda r: And(O.eq(S.elem(r, 0), e), O.eq(S.elem(r, 1), p)))
+            one = O.exists_box([R], lambda r: And(O.eq(S.elem(r, 0), e), O.eq(S.elem(r, 1), p), O.eq(S.elem(r, 2), c)))
+            return ite(one, 1, ite(named, 0, X.elem(e, c, p)))
+        return spec_tensor(list(X.shape), elem, 'int')
+
+    def repair_concrete(self, cfg, args, kwargs):
+        args = list(args)
+        args[2] = args[2].long()      # an index table
+        return args, kwargs
+
+    def rejects(self, a, cfg):
+        return False
+
+    def accepts(self, a, cfg):
+        return False     # no claim here about which tables are accepted (conflicts are rejected: bounded clause)
+
+    def result(self, a, cfg):
+        rw = a.func.attrs['rowwise']
+        Xv = self.edited(a.X, a.substitutions)
+        return (rw.package(rw.apply_rows([a.X])), rw.package(rw.apply_rows([Xv])))
+
+
 def register(world):
     world.register_fragment(DeletionKeepMask())
+    world.register(SubstitutionEffect())
